@@ -38,6 +38,18 @@ def base_env():
     return env
 
 
+def big_stack():
+    """preexec hook: sanitizer frames are several times larger than the library's own, so recursion that is
+    linear in a string length (XBW's trie insertion: one frame per byte) would overflow the default 8 MB
+    stack on 16-50 KB strings although the uninstrumented library handles them; 1 GiB removes that artefact"""
+    import resource
+    soft, hard = resource.getrlimit(resource.RLIMIT_STACK)
+    want = 1 << 30
+    if hard != resource.RLIM_INFINITY and hard < want:
+        want = hard
+    resource.setrlimit(resource.RLIMIT_STACK, (want, hard))
+
+
 def fnv64(data):
     h = 1469598103934665603
     for b in data:
@@ -94,7 +106,7 @@ def run_replay(binary, prop, path, known=True, extra=None, timeout=300, trace=Fa
     if env_extra:
         env.update(env_extra)
     try:
-        r = subprocess.run(cmd, stdout=subprocess.PIPE, stderr=subprocess.PIPE, env=env, timeout=timeout, cwd="/")
+        r = subprocess.run(cmd, stdout=subprocess.PIPE, stderr=subprocess.PIPE, env=env, timeout=timeout, cwd="/", preexec_fn=big_stack)
     except subprocess.TimeoutExpired as e:
         return {"rc": None, "json": None, "stderr": (e.stderr or b"").decode("latin1"), "crashed": False, "timeout": True, "sig": "hang"}
     out = r.stdout.decode("latin1")
@@ -216,7 +228,7 @@ class Worker:
         if os.path.exists(avoid):
             cmd += ["--avoid", avoid]
         self.errpath = os.path.join(self.logdir, "w%d.stderr" % self.wid)
-        self.proc = subprocess.Popen(cmd, stdout=subprocess.DEVNULL, stderr=open(self.errpath, "ab"), env=env, cwd="/")
+        self.proc = subprocess.Popen(cmd, stdout=subprocess.DEVNULL, stderr=open(self.errpath, "ab"), env=env, cwd="/", preexec_fn=big_stack)
         self.started = time.time()
 
     def count_cases(self):
